@@ -111,7 +111,7 @@ func cbCanon(r *CbRun) string {
 	} else if d.Kind == "redirect" && d.Sig != "" {
 		sig = "query"
 	}
-	t := []string{d.Kind, tokStr(target), tokStr(relay), statusShort(m.Status), tokStr(m.InResponseTo), tokStr(m.Destination), tokStr(m.Issuer), sig}
+	t := []string{d.Kind, tokStr(target), tokStr(relay), statusShort(m.Status), tokStr(m.InResponseTo), tokStr(m.Destination), tokStr(m.Issuer), sig, tokStr(m.StatusMessage)}
 	if m.AssertionID == "" {
 		t = append(t, "A0")
 		return strings.Join(t, " ")
@@ -163,6 +163,7 @@ func cbCompare(c *Ctx, r *CbRun) {
 	} else {
 		toks = append(toks, "-")
 	}
+	toks = append(toks, tokStr(r.Storage.LookupErr)) // the text of the error AuthRequestByID returned ("" when it returned a record)
 	if cs["entity"] == "ok" {
 		toks = append(toks, "+", tokStr(r.Entity))
 	} else {
